@@ -25,6 +25,34 @@ CHECKS = {
     ),
 }
 
+CHECKS['C01'] = dict(
+    level='model_checking',
+    text=("Explicit-state BFS over instruction streams on the real execute_instructions (proof phase; empty theory and "
+          "a valid theory; full 43-instruction alphabet to depth 4/5 and a rule-centred 22-instruction alphabet to depth "
+          "6/7, states deduplicated by canonical dump) plus a derivation-closure search that saturates the theorem set "
+          "under the real ModusPonens/Generalization/Substitution/Instantiate executed as bytes. Invariant in every "
+          "state: every term tagged Proved is valid -- every admissible instance over a pool of concrete plugs evaluates "
+          "to the full carrier in every model of the enumerated class (carriers 1-2 complete, carrier 3 thorough)."),
+    note=("Trusted: the finite-model evaluator inside the harness (cross-checked on every run against the Python "
+          "reference on all small patterns) and the textbook instantiation in mc/refpat.py; validity only over the "
+          "enumerated finite model class and plug pool; states beyond stack 4 / memory 3 / 14 nodes are counted, not expanded."),
+    technique='explicit-state BFS + derivation closure on the real checker; semantic validity invariant over an enumerated finite model class',
+    design='5/C01',
+)
+CHECKS['C11'] = dict(
+    level='exploration',
+    text=("Bounded-exhaustive one-step exploration: every (pattern, variable, plug) and (pattern, map[, second map]) over "
+          "the universe of patterns with <=3/4 constructor or notation applications (incl. constrained metavariables, "
+          "pending substitutions, partial Instantiate objects) is run through the real Python apply_esubst/apply_ssubst/"
+          "instantiate and compared with a textbook reference, incl. identity, deferral, simultaneity and composition; "
+          "the machine-constructible part of the space goes through the Rust apply_esubst/apply_ssubst/"
+          "instantiate_internal via the harness; the substitution lemma is checked on the finite-model semantics."),
+    note=("Trusted: mc/refpat.py msubst/minst (textbook definitions) and mc/semantics.py. Maps violating declared "
+          "metavariable constraints are excluded (C07 covers that gap). Bounds: size 3/4, pool 15 plugs."),
+    technique='bounded-exhaustive enumeration of the input space against a reference model',
+    design='5/C11',
+)
+
 NOT_YET = {
 }
 
